@@ -210,7 +210,7 @@ def base_self(it):
     return DBObj(RelVal(('R',), 'D_db', 'S_db'), RelVal(('inv', ('R',)), 'D_rdb', 'S_rdb'))
 
 
-GEN = {'pkg-one': {'role::a', 'role::b'}, 'pkg-two': {'role::b'}, 'pkg-three': {'role::b', 'use::c'}, 'pkg-none': set(), 'pkg-five': {'use::d'}}
+GEN = {'pkg-one': {'role::a', 'role::b'}, 'pkg-two': {'role::b'}, 'pkg-three': {'role::b', 'use::c'}, 'pkg-none': set(), 'pkg-five': {'use::d', 'plain'}}     # 'plain': a tag without facet separator
 KEEP_P = {'pkg-one', 'pkg-three', 'pkg-none'}
 KEEP_T = {'role::a', 'use::c', 'role::zzz'}
 
@@ -361,14 +361,15 @@ def _r6(rep, src, label, full):
                 rep.ok('C20.R1', f.site, 'result content' + label, 'as documented')
         # ownership of the set objects
         shared_r = [s_ for s_ in rsets if any(s_ is o for o in own_sets + own_rsets)]
-        shared_d = [s_ for s_ in dsets if any(s_ is o for o in own_rsets)]
+        shared_d = [s_ for s_ in dsets if any(s_ is o for o in own_rsets + own_sets)]
         same_dicts = {heap.objs[res.name]['db'].name, heap.objs[res.name]['rdb'].name} == {'@db.db', '@db.rdb'}
         doc = (ast.get_docstring(f.node) or '').lower()
         if (shared_r or shared_d) and not same_dicts:
             rep.fail('C20.R5', f.site, 'no shared mutable sets' + ('' if full or f.qual == 'DB.filter_tags' else label),
-                     'the returned collection is a separate object but its %s index uses set objects of the receiver, which a later insert() on either collection '
+                     'the returned collection is a separate object but its %s index uses set objects of the receiver, which a later insert() on either collection%s '
                      'extends in place: afterwards one collection lists a package under a tag without listing the tag for the package%s'
-                     % ('tag→packages' if shared_r else 'package→tags', ' (the docstring promises a copy)' if 'copy' in doc and 'sharing' not in doc else ''), where=f.where)
+                     % ('tag→packages' if shared_r else 'package→tags', '' if shared_r else ' through its reverse() view',
+                        ' (the docstring promises a copy)' if 'copy' in doc and 'sharing' not in doc else ''), where=f.where)
         else:
             rep.ok('C20.R5', f.site, 'no shared mutable sets' + label, 'same dictionaries as the receiver' if same_dicts else 'no set object that insert() mutates is shared')
     if n < 12:
@@ -425,6 +426,35 @@ def _r6(rep, src, label, full):
                                                                                                                          {t: sorted(want_rdb.get(t, [])) for t in others[:3]}), where=ins.where)
             elif letters:
                 rep.ok('C20.R3', ins.site, 'insert adds every pair to both indexes (%s)' % label, 'apart from the character-set entry reported under C20.R2', nontrivial=False)
+    # insert() of a package the collection already holds replaces its tags: the tags it lost no longer list it (and a tag nobody
+    # carries any more is gone), on the collection as read and on a derived one
+    for derived in (False, True):
+        for pkg, tags in (('pkg-one', {'role::b'}), ('pkg-three', set()), ('pkg-one', {'role::a', 'role::b', 'use::c'})):
+            heap, it, me = _world(src)
+            target, wlabel, rel = me, 'the generic collection', dict(GEN)
+            what = 're-insert replaces the tags of a package (%s ← %s%s)' % (pkg, sorted(tags), ', derived collection' if derived else '')
+            try:
+                if derived:
+                    ch_ = src.func(M + ':DB.filter_packages_copy')
+                    heap.hooks['ALL'] = lambda it_, a, k: True
+                    target = it.call(H.Closure(ch_.node, {}, me, ch_.cls), [('hook', 'ALL')])
+                it.call(H.Closure(ins.node, {}, target, ins.cls), [pkg, set(tags)])
+            except H.Raised as x:
+                rep.fail('C20.R3', ins.site, what, 'raises %s (line %d)' % (x.exc, x.lineno), where=ins.where)
+                continue
+            db, _a = _plain(heap, heap.objs[target.name]['db'])
+            rdb, _b = _plain(heap, heap.objs[target.name]['rdb'])
+            rel[pkg] = set(tags)
+            want_db = {k: frozenset(v) for k, v in rel.items()}
+            want_rdb = {k: frozenset(v) for k, v in _inverse(rel).items()}
+            if db == want_db and rdb == want_rdb:
+                rep.ok('C20.R3', ins.site, what, 'both indexes hold exactly the new pairs')
+            else:
+                stale = sorted(t for t in rdb if rdb[t] != want_rdb.get(t))
+                rep.fail('C20.R3', ins.site, what, 'after insert(%r, %s) on a collection that already holds %s with the tags %s the tag index still has %s (the inverse of the '
+                         'package index has %s): the package stays listed under tags it no longer carries' % (pkg, sorted(tags), pkg, sorted(GEN[pkg]),
+                                                                                                     {t: sorted(rdb[t]) for t in stale[:3]}, {t: sorted(want_rdb.get(t, [])) for t in stale[:3]}),
+                         where=ins.where)
     # the reader: both indexes from one pass, with and without a tag filter
     h = src.func(M + ':read_tag_database_both_ways')
     rep.saw_func(h)
